@@ -109,6 +109,9 @@ func cmdCheck(args []string) int {
 		opt.Timeout = 60 * time.Second
 		opt.Seeds = []int{seed, seed + 1, seed + 2}
 	}
+	if *only != "" {
+		*evidence = "" // a debugging run over a subset must not overwrite the property's evidence
+	}
 	Discharge(reps, opt)
 	return report(p, *prop, *tier, seed, reps, *evidence, *known, *replays, *repo, t0, loadSecs, genSecs, *verbose, *noReplay)
 }
@@ -167,6 +170,7 @@ func report(p *Program, prop, tier string, seed int, reps []*FuncReport, evidenc
 	unmodelled := map[string]bool{}
 	violations := 0
 	var knownLines, violLines []string
+	knownObls := 0
 	vacuityChecks := 0
 	var unstable []string
 	for _, r := range reps {
@@ -176,6 +180,7 @@ func report(p *Program, prop, tier string, seed int, reps []*FuncReport, evidenc
 			total++
 			name := r.Short + "#translate"
 			if kfnd, ok := known[name]; ok {
+				knownObls++
 				knownLines = append(knownLines, fmt.Sprintf("KNOWN-FINDING: property=%s %s %s", prop, name, kfnd.What))
 				continue
 			}
@@ -217,6 +222,7 @@ func report(p *Program, prop, tier string, seed int, reps []*FuncReport, evidenc
 				continue
 			}
 			if kfnd, ok := known[o.Name]; ok {
+				knownObls++
 				knownLines = append(knownLines, fmt.Sprintf("KNOWN-FINDING: property=%s %s %s", prop, o.Name, kfnd.What))
 				continue
 			}
@@ -267,7 +273,7 @@ func report(p *Program, prop, tier string, seed int, reps []*FuncReport, evidenc
 		violations++
 		path := filepath.Join(rdir, safeFile(name)+".json")
 		writeJSON(path, map[string]interface{}{"obligation": name, "kind": "bounded", "package": b.Package, "test": b.Test,
-			"replay_cmd": fmt.Sprintf("cd %s && go test -tags verif -vet=off -count=1 -v -run '^%s$' ./%s", repo, b.Test, b.Package),
+			"replay_cmd":      fmt.Sprintf("cd %s && go test -tags verif -vet=off -count=1 -v -run '^%s$' ./%s", repo, b.Test, b.Package),
 			"verifier_output": lastLines(b.Output, 60)})
 		violLines = append(violLines, fmt.Sprintf("VIOLATION property=%s replay=%s", prop, path))
 		fmt.Fprintf(os.Stderr, "  FAILED bounded check %s\n%s\n", b.Name, lastLines(b.Output, 15))
@@ -316,21 +322,22 @@ func report(p *Program, prop, tier string, seed int, reps []*FuncReport, evidenc
 		sort.Strings(funcs)
 		discharged := proved
 		cov := map[string]interface{}{
-			"obligations":              total - len(knownLines),
-			"discharged":               discharged,
-			"known_finding_obligations": len(knownLines),
-			"checker_cmd":              fmt.Sprintf("/verif/check %s --tier %s", prop, tier),
-			"trusted_base":             []string{"go/packages + go/ssa (x/tools v0.29.0, NaiveForm)", "govc VC generator (/verif/govc)", "z3 5.1.0 (z3-new), z3 4.8.12, cvc5 1.0.3"},
-			"by_backend":               byBackend,
-			"solver_time_s":            round3(solverTime),
-			"load_s":                   round3(loadSecs),
-			"vcgen_s":                  round3(genSecs),
-			"functions_under_contract": funcs,
-			"vacuity_checks":           vacuityChecks,
-			"unmodelled":               um,
-			"samples":                  samples,
-			"unstable":                 unstable,
-			"bounded_checks":           bounded,
+			"obligations":               total - knownObls,
+			"discharged":                discharged,
+			"known_finding_obligations": knownObls,
+			"known_findings_reported":   len(knownLines),
+			"checker_cmd":               fmt.Sprintf("/verif/check %s --tier %s", prop, tier),
+			"trusted_base":              []string{"go/packages + go/ssa (x/tools v0.29.0, NaiveForm)", "govc VC generator (/verif/govc)", "z3 5.1.0 (z3-new), z3 4.8.12, cvc5 1.0.3"},
+			"by_backend":                byBackend,
+			"solver_time_s":             round3(solverTime),
+			"load_s":                    round3(loadSecs),
+			"vcgen_s":                   round3(genSecs),
+			"functions_under_contract":  funcs,
+			"vacuity_checks":            vacuityChecks,
+			"unmodelled":                um,
+			"samples":                   samples,
+			"unstable":                  unstable,
+			"bounded_checks":            bounded,
 		}
 		if extra := loadExtraCoverage(prop); extra != nil {
 			for k, v := range extra {
@@ -341,7 +348,7 @@ func report(p *Program, prop, tier string, seed int, reps []*FuncReport, evidenc
 			"property_id": prop, "tier": tier, "seed": seed, "level": "proof",
 			"coverage": cov, "assumptions": as, "wall_s": round3(wall), "violations": violations,
 		}
-		if total-len(knownLines) == 0 || discharged == 0 {
+		if total-knownObls == 0 || discharged == 0 {
 			ev["level"] = "other"
 			cov["explanation"] = "no obligation was discharged in this run"
 		}
